@@ -302,6 +302,11 @@ unsafe fn h_read(fd: c_int, buf: *mut c_void, n: usize) -> Option<isize> {
     if !RECORDING || fd <= 2 {
         return None;
     }
+    if let Some(e) = fault_check(K_READ) {
+        rec(K_READ, fd as i64, n as i64, 0, -1, e, b"");
+        crate::raw::set_errno(e);
+        return Some(-1);
+    }
     BLOCKED_IN.store(-1000 - fd as i64, Ordering::SeqCst);
     let r = crate::raw::read(fd, buf, n);
     let en = errno_of(r as i64);
